@@ -197,11 +197,11 @@ func scenarios() []scenario {
 	l = append(l, mkScenario(2, -1, P(1), P(1)), mkScenario(3, -1, P(1)), mkScenario(2, -1, P(1), P(1), P(1)))
 	// preemption-bounded exploration above that
 	l = append(l, mkScenario(2, 2, S(2, 0)), mkScenario(2, 2, S(2, 1)), mkScenario(2, 3, P(2), P(2)), mkScenario(2, 3, S(1, 0), P(2)),
-		mkScenario(2, 3, P(2), S(1, 1)), mkScenario(2, 2, S(2, 0), S(1, 0)), mkScenario(3, 2, P(3)), mkScenario(3, 1, S(2, 1)), mkScenario(3, 3, P(2)))
+		mkScenario(2, 3, P(2), S(1, 1)), mkScenario(2, 2, S(2, 0), S(1, 0)), mkScenario(3, 2, P(3)), mkScenario(3, 1, S(2, 1)), mkScenario(3, 3, P(2)), mkScenario(3, 2, S(1, 0)), mkScenario(3, 1, S(1, 0), P(1)))
 	if vkit.Thorough() {
 		l = append(l, mkScenario(2, -1, S(1, 1)), mkScenario(2, -1, P(3)), mkScenario(2, -1, P(2), P(2)), mkScenario(3, -1, P(2)), mkScenario(2, 4, S(2, 0)), mkScenario(2, 3, S(2, 1)),
 			mkScenario(3, 3, P(3)), mkScenario(3, 2, P(2), P(1)), mkScenario(3, 2, S(2, 1)), mkScenario(2, 3, S(2, 0), S(1, 0)), mkScenario(2, 3, P(1), S(1, 0), P(1)),
-			mkScenario(4, 1, P(4)), mkScenario(4, 2, P(2)), mkScenario(4, 1, S(2, 0), P(2)), mkScenario(1, -1, P(3), S(2, 1), P(0)), mkScenario(3, 2, S(3, 1)))
+			mkScenario(4, 1, P(4)), mkScenario(4, 2, P(2)), mkScenario(4, 1, S(1, 0)), mkScenario(3, 3, S(1, 0)), mkScenario(4, 1, S(2, 0), P(2)), mkScenario(1, -1, P(3), S(2, 1), P(0)), mkScenario(3, 2, S(3, 1)))
 	}
 	return l
 }
